@@ -29,7 +29,8 @@ pub fn measure(dir: &std::path::Path, tree: &[Node]) -> Vec<Value> {
         match std::fs::symlink_metadata(&p) {
             Ok(m) => {
                 let text = if m.file_type().is_symlink() { std::fs::read_link(&p).map(|t| t.as_os_str().as_bytes().to_vec()).unwrap_or_default() } else { vec![] };
-                attrs.push(json!({"size": m.size(), "mode": m.mode() & 0o7777, "uid": m.uid(), "gid": m.gid(), "nlink": m.nlink(), "ino": m.ino(), "text": bytes_to_json(&text)}));
+                attrs.push(json!({"size": m.size(), "mode": m.mode() & 0o7777, "uid": m.uid(), "gid": m.gid(), "nlink": m.nlink(), "ino": m.ino(), "text": bytes_to_json(&text),
+                                   "mt": [m.mtime(), m.mtime_nsec()], "ct": [m.ctime(), m.ctime_nsec()]}));
             }
             Err(_) => attrs.push(json!({"missing": true})),
         }
